@@ -1024,7 +1024,7 @@ def readBody (c : Coding α) (cfg : ReaderCfg) (hdr : Header) (body : Bytes) : R
           | none => (Topo.point, (List.range nv).map Int.ofNat, ([] : List (List α)))
           | some (idx, uvs) => (Topo.triangle, idx, uvs)
         let mesh := applyColumns ⟨topo, indices, [], none⟩ built rows
-        if uvs.length = indices.length then do
+        if 0 < uvs.length ∧ uvs.length = indices.length then do   -- reader.go:545
           let u ← unweld mesh
           pure (u.set 2 texCoordAttr uvs)
         else pure mesh
